@@ -232,6 +232,17 @@ func parseFloat64_reader(r readFloatResult) (f float64, fail bool) {
 	return
 }
 
+// decimalFraction64 returns mant * 10^exp as the nearest float64
+// (+-Inf if too large, +-0 if too small).
+func decimalFraction64(mant, exp int64) (f float64) {
+	var b [48]byte
+	bs := strconv.AppendInt(b[:0], mant, 10)
+	bs = append(bs, 'e')
+	bs = strconv.AppendInt(bs, exp, 10)
+	f, _ = strconv.ParseFloat(string(bs), 64) // on ErrRange f is +-Inf or +-0
+	return
+}
+
 func parseFloat64_custom(b []byte) (f float64, err error) {
 	r := readFloat(b, fi64)
 	if r.bad {
